@@ -1,5 +1,5 @@
 (** Correspondence and monitors for C12 (streamed HTTP responses). *)
-From GV Require Import Base.Prelude Model.Sse Model.Multipart Model.SseLock.
+From GV Require Import Base.Prelude Model.Sse Model.Multipart Model.SseLock Model.MpLock.
 Open Scope list_scope.
 
 Inductive c12_case :=
@@ -111,10 +111,35 @@ Definition acts_split (bs : list body) : list mact :=
   | _ => acts_of_bodies bs
   end.
 
+(** the parts the stream shows are a behaviour of the lock discipline (Model.MpLock): every flush but the last is
+    replayed as the ticker's (lock, write, Flush, unlock), the last as the handler's final one, then the deferred
+    Flush and the ticker seeing the signal; the parts written must be the ones observed, both goroutines must have
+    ended and the response writer must never have been used by both at once *)
+Definition ids_of_body (b : body) : list nat := match b with BInitial q => [p_id q] | BIncr ps _ => map p_id ps end.
+Definition groups_split (bs : list body) : list (list nat) := map ids_of_body bs.
+Definition groups_merged (bs : list body) : list (list nat) :=
+  match bs with
+  | BInitial q :: BIncr ps _ :: r => (p_id q :: map p_id ps) :: map ids_of_body r
+  | _ => map ids_of_body bs
+  end.
+Fixpoint mp_schedule (groups : list (list nat)) {struct groups} : list mlabel :=
+  match groups with
+  | [] => repeat MLHandler 4 ++ [MLSeeDone]                 (* nothing at all was produced: signal, lock, unlock, ... *)
+  | [g] => repeat MLHandler (List.length g) ++ repeat MLHandler 10 ++ [MLSeeDone]
+  | g :: r => repeat MLHandler (List.length g) ++ [MLTick] ++ repeat MLTicker 7 ++ mp_schedule r
+  end.
+Definition mp_lock_accepts (groups : list (list nat)) : bool :=
+  match mprun true (mpinit (List.concat groups)) (mp_schedule groups) with
+  | Some s => list_eqb (list_eqb Nat.eqb) (map snd (m_out s)) groups && returned s
+              && (match m_k s with MKEnd => true | _ => false end) && negb (both_using s) && Nat.eqb (m_late s) 0
+  | None => false
+  end.
+
 Definition multi_corr (toks : list tok) : bool :=
   match parse_toks ExpBoundary toks with
   | Some (bs, _) =>
-      list_eqb tok_eqb (mrun m0 (acts_split bs ++ [MDone])) toks || list_eqb tok_eqb (mrun m0 (acts_merged bs ++ [MDone])) toks
+      (list_eqb tok_eqb (mrun m0 (acts_split bs ++ [MDone])) toks && mp_lock_accepts (groups_split bs))
+      || (list_eqb tok_eqb (mrun m0 (acts_merged bs ++ [MDone])) toks && mp_lock_accepts (groups_merged bs))
   | None => false
   end.
 
